@@ -328,8 +328,8 @@ def _rule_builtin_args(prog, chk, R):
             if pol and SX.is_node(ce) and ce['k'] in ('mcall', 'call'):
                 for f in prog.resolve(ce):
                     if f.body and any(x['k'] == 'ref' and x.get('global') and x['name'].endswith('builtInGates') for x in SX.walk(f.body)):
-                        loops = [lp for lp in SX.walk(analyse.body, into_lambdas=False) if lp['k'] == 'forrange' and any(y is ce for y in SX.walk(lp['body']))]
-                        if any('functions' in SX.show(lp['range']) for lp in loops):
+                        loops = [lp for lp in SX.walk(analyse.body, into_lambdas=False) if lp['k'] in ('forrange', 'for') and SX.loop_range(lp) is not None and any(y is ce for y in SX.walk(lp['body']))]
+                        if any('functions' in SX.show(SX.loop_range(lp)) for lp in loops):
                             reserved = True
             if pol and any(x['k'] == 'ref' and x.get('global') and x['name'].endswith('builtInGates') for x in SX.walk(ce)):
                 reserved = True
